@@ -143,6 +143,19 @@ def parse(s):
     return v
 
 
+_memo = {}
+
+
+def parse_cached(s):
+    """parse() with memoisation on the text: states of one graph share most of their variable values."""
+    v = _memo.get(s)
+    if v is None:
+        if len(_memo) > 500000:
+            _memo.clear()
+        v = _memo[s] = parse(s)
+    return v
+
+
 def parse_state(text):
     """Parse a conjunction '/\\ x = v\\n/\\ y = w' into {x: v, y: w}."""
     parts = re.split(r'(?:^|\n)\s*/\\ ', text.strip())
@@ -152,7 +165,7 @@ def parse_state(text):
         if not part:
             continue
         name, _, val = part.partition('=')
-        out[name.strip()] = parse(val.strip())
+        out[name.strip()] = parse_cached(val.strip())
     return out
 
 
